@@ -261,7 +261,7 @@ func (o *streamObs) threads() (R, Q []mevent) {
 // ---- the property, evaluated directly on what was observed -------------------------------------
 
 type oracleOpts struct {
-	exactRanges bool // the harness knows the true record ids of every batch (real onStream runs)
+	exactRanges bool // the range was computed by the real onStream (not by the harness playing it)
 	quiescent   bool // the stream was given time to report everything and did not break
 	written     int  // batches handed to the receiver (real onStream runs), -1 if not applicable
 }
@@ -297,8 +297,6 @@ func checkC16(c *caseOut, o *streamObs, opt oracleOpts) {
 			switch {
 			case r.from == b.from+1:
 				c.stat("range-exact", 1)
-			case r.from == b.from && !opt.exactRanges:
-				c.stat("range-as-scheduled", 1)
 			case r.from == b.from && b.from == 0:
 				// [0,to]: id 0 is no record, the records covered are exactly 1..to
 				c.stat("range-first-batch-from-0", 1)
